@@ -9,7 +9,8 @@ RULE = ("vget: every slice with start, stop in {None,-7..7} and step in {None,±
         "stream (empty list, mixed/None/float members, nullable/untyped/str Vectors, wrong tuples, self as key) and random long "
         "vectors with huge slice members; slen: typeutils.slice_length on the same slice domain plus random big ints against "
         "len(range(*s.indices(n))); cmp: ==,!=,<,<=,>,>=,&,|,^ on all ordered pairs of 12 scalars (None, bool, int, float, nan, str, "
-        "date) in Vector/list/tuple/scalar/reflected form plus random vectors with None and length mismatches, scalar results "
+        "date) in Vector/list/tuple/scalar/reflected form plus random vectors with None and length mismatches, and the logical NOT "
+        "~v on every vector over {True, False, None} up to length 4 (None an ordinary operand of Python's `not`), scalar results "
         "taken from Python; tget: string keys (exact, case variants, sanitised base, base__idx, col<idx>_, missing), name tuples to "
         "length 3 with repeats and missing names, row slices/masks/int/int-Vector keys and the 2-D forms on five name layouts x 0..3 "
         "rows; tcomm: t[rows][names] versus t[names][rows]. non-trivial = the key selects a proper, non-empty part, or raises, or "
@@ -226,6 +227,10 @@ def _generate(rng, tier):
             for y in scal:
                 for form in ("vec", "list", "tuple", "scalar", "rscalar", "rlist"):
                     yield {"fam": "cmp", "op": op, "xs": [x], "other": {"t": form, "ys": [y]}}
+    # ---- logical NOT: `~v` on every boolean vector over {True, False, None} up to length 4 (and declared-bool empties)
+    for n in range(0, 5):
+        for xs in itertools.product([1, 2, 0], repeat=n):
+            yield {"fam": "cmp", "op": "not", "xs": list(xs), "other": {"t": "scalar", "ys": [1]}, "xdtype": "bool" if n == 0 else None}
     kinds = [[0], [1, 2], [3, 4, 5, 7], [14, 15, 16], [19, 20, 23], [26, 27], [4, 19, 0, 15]]
     for _ in range(15000 if not thorough else 120000):
         n = rng.randint(0, 5)
@@ -459,7 +464,14 @@ def _exec_cmp(spec):
     datey = _is_kind(v, (D,)) or _is_kind(other, (D,))
     if datey and (_is_kind(v, (str, DT)) or _is_kind(other, (str, DT))):
         return {"skip": "_Date against str/datetime"}
-    op = OPS[spec["op"]]
+    if spec["op"] == "not":
+        # unary logical operator: encoded as a binary one against a dummy scalar, so that the same judge applies
+        # (non-nullable bool result of the same length, every position Python's own `not x` — for None that is True)
+        if not all(x is None or type(x) is bool for x in xs) or not any(type(x) is bool for x in xs) and spec.get("xdtype") != "bool":
+            return {"skip": "~ on a non-boolean vector is bitwise arithmetic"}
+        op = lambda a, b: (~a if isinstance(a, Vector) else (not a))
+    else:
+        op = OPS[spec["op"]]
     if refl and spec["op"] in ("and", "or", "xor") and form == "rscalar" and type(other) in (bool, int):
         pass  # int.__and__(Vector) is NotImplemented -> Vector.__rand__
     def scalar(x, y):
@@ -479,6 +491,12 @@ def _exec_cmp(spec):
     case = {"xs": [it.uid(x) for x in xs],
             "other": {"t": wform, "ys": [it.uid(y) for y in ys]} if wform != "scalar" else {"t": "scalar", "y": it.uid(other)},
             "table": table}
+    if spec["op"] == "not":
+        # Python's own `not x` is defined for None too (True): None is an ordinary operand value here, not a hole
+        NONE_AS_VALUE = 10 ** 6
+        case["xs"] = [NONE_AS_VALUE if x is None else it.uid(x) for x in xs]
+        if any(x is None for x in xs):
+            case["table"] = table + [[NONE_AS_VALUE, it.uid(other), 1]]
     try:
         r = op(other, v) if refl else op(v, other)
         if not isinstance(r, Vector):
@@ -738,6 +756,8 @@ def snippet(spec):
         ys = [VALS[i] for i in spec["other"]["ys"]]
         form = spec["other"]["t"]
         o = {"vec": f"Vector({ys!r})", "self": "v", "list": repr(ys), "rlist": repr(ys), "tuple": repr(tuple(ys))}.get(form, repr(ys[0]) if ys else "None")
+        if spec["op"] == "not":
+            return head + f"v = Vector({xs!r})\nr = ~v\nprint(list(r), r.schema())"
         sym = {"eq": "==", "ne": "!=", "lt": "<", "le": "<=", "gt": ">", "ge": ">=", "and": "&", "or": "|", "xor": "^"}[spec["op"]]
         e = f"{o} {sym} v" if form in ("rscalar", "rlist") else f"v {sym} {o}"
         return head + f"v = Vector({xs!r})\nr = {e}\nprint(list(r), r.schema())"
